@@ -18,6 +18,10 @@ MODE = os.environ.get("SELFTEST_MODE", "ok")
 
 def check_value(case):
     v = case["v"]
+    if MODE == "abort" and v >= 9000:
+        os.abort()  # the code under test kills the interpreter on this input
+    if MODE == "abort_once" and v >= 9000 and not os.environ.get("VERIF_REPLAYING"):
+        os.abort()  # dies in the shard but not when replayed: not attributable
     if MODE == "harness_error" and v > 5000:
         raise RuntimeError("bug in the oracle itself")
     if MODE in ("fail", "fail_known") and case["kind"] == "b" and v >= 777:
@@ -37,3 +41,4 @@ ORACLES = [
         thorough=300,
     )
 ]
+SHARDS = {"quick": 2, "thorough": 2} if MODE in ("abort", "abort_once") else {"quick": 1, "thorough": 1}
